@@ -143,6 +143,10 @@ func (ex *Exec) exitReturn(code Term) {
 	for i, rv := range ex.resVars {
 		ex.st.vars[rv] = ex.U.Fresh(ex.resNames[i], ex.U.SortOf(rv.Type()))
 	}
+	if ex.inDefer {
+		// the process ends while the deferred calls of this function run: the remaining ones are skipped by their guard
+		return
+	}
 	ex.returns = append(ex.returns, ex.st)
 	ex.st = ex.st.clone()
 	ex.kill()
@@ -175,6 +179,7 @@ func (ex *Exec) osModel(full string, c *ast.CallExpr, args []Term) ([]Term, bool
 	sigRes := func() []Term { return ex.freshResults(ex.info.TypeOf(c), "os") }
 	switch full {
 	case "os.Exit":
+		ex.st.ghost["panicking"] = TFalse
 		ex.exitReturn(args[0])
 		return nil, true
 	case "fmt.Println":
